@@ -1,4 +1,5 @@
 import KafVerif.Model.LfsResolve
+import KafVerif.Model.LfsIceberg
 /-!
 C30 — LFS readers never return a blob that fails its envelope checksum.
 
@@ -278,3 +279,194 @@ example : download (fun _ => List.replicate 64 0x30) false 0 [] (some ⟨List.re
     = .status 502 := by decide
 
 end KafVerif.LfsResolve
+
+/-! ## third reader: the iceberg processor's resolve stage (one Processor, several mappings)
+
+Statement: a record of mapping `m` is resolved by a resolver configured from `m`'s OWN `LfsConfig`
+— whatever segments of whatever mappings the same Processor handled before, in whatever order —
+so every blob the stage hands on satisfies the checksum / size settings of ITS mapping. -/
+namespace KafVerif.LfsIceberg
+open KafVerif.LfsResolve
+
+/-- the code's provider hands out the mapping's own configuration in every state -/
+theorem perMapping_cfg (st : PState) (c : LfsCfg) : perMapping st c = (st, resolverCfg c) := rfl
+
+theorem stepWith_perMapping (H : Alg → Bytes → Bytes) (p : Proc) (st : PState) (m : Nat) (recs : List Rec) :
+    stepWith perMapping H p st m recs = (st, ownCall H p m recs) := by
+  unfold stepWith ownCall perMapping
+  cases p.mappings[m]? with
+  | none => rfl
+  | some c => simp only []; split <;> rfl
+
+theorem runWith_perMapping (H : Alg → Bytes → Bytes) (p : Proc) (st : PState) (hist : List (Nat × List Rec)) :
+    runWith perMapping H p st hist = (st, hist.map fun x => ownCall H p x.1 x.2) := by
+  induction hist generalizing st with
+  | nil => rfl
+  | cons x rest ih =>
+    obtain ⟨m, recs⟩ := x
+    simp [runWith, stepWith_perMapping, ih]
+
+/-- **C30 (iceberg: own configuration).**  For every processor (mapping list, reader), every state
+and EVERY history of previously processed segments, the outcome of a segment of mapping `m` is the
+one computed from `m`'s own `LfsConfig` (`ownCall`): the resolver the workers use is configured by
+`resolverCfg` of the mapping the segment belongs to, independent of processing history / order. -/
+theorem _root_.KafVerif.C30.resolve_uses_own_config (H : Alg → Bytes → Bytes) (p : Proc) (st : PState)
+    (hist : List (Nat × List Rec)) (m : Nat) (recs : List Rec) :
+    (stepWith perMapping H p (runWith perMapping H p st hist).1 m recs).2 = ownCall H p m recs ∧
+    ∀ c, (perMapping (runWith perMapping H p st hist).1 c).2 = resolverCfg c := by
+  rw [stepWith_perMapping]
+  exact ⟨rfl, fun _ => rfl⟩
+
+/-- **C30 (iceberg: order independence).**  The outcomes of a whole history are, position by
+position, the own-configuration outcomes: permuting, repeating or interleaving segments of
+different mappings cannot change what any single segment yields. -/
+theorem _root_.KafVerif.C30.iceberg_history_independent (H : Alg → Bytes → Bytes) (p : Proc) (st : PState)
+    (hist : List (Nat × List Rec)) :
+    (runWith perMapping H p st hist).2 = hist.map fun x => ownCall H p x.1 x.2 := by
+  rw [runWith_perMapping]
+
+theorem resolveRecordWith_blob {H : Alg → Bytes → Bytes} {c : LfsCfg} {rc : Cfg}
+    {s3 : Option (Bytes → Option Bytes)} {r : Rec} {b : Bytes}
+    (h : resolveRecordWith H c rc s3 r = .blob b) :
+    (c.mode = .resolve ∨ c.mode = .hybrid) ∧ ∃ a x, resolve H rc s3 r.value = .ok b a x := by
+  have job : ∀ {o : RecOut}, o = (match resolve H rc s3 r.value with
+        | .err => RecOut.fail | .passthrough _ => .kept | .ok b _ _ => .blob b) → o = .blob b →
+      ∃ a x, resolve H rc s3 r.value = .ok b a x := by
+    intro o ho hb
+    subst ho
+    split at hb
+    · simp at hb
+    · simp at hb
+    · rename_i b' a x hr
+      simp only [RecOut.blob.injEq] at hb
+      subst hb
+      exact ⟨a, x, hr⟩
+  unfold resolveRecordWith at h
+  simp only [] at h
+  split at h
+  · split at h <;> simp at h
+  · split at h
+    · simp at h
+    · split at h
+      · simp at h
+      · split at h
+        · simp at h
+        · rename_i hm
+          split at h
+          · exact ⟨Or.inr hm, job rfl h⟩
+          · simp at h
+        · rename_i hm
+          exact ⟨Or.inl hm, job rfl h⟩
+        · simp at h
+
+theorem callWith_blob {H : Alg → Bytes → Bytes} {c : LfsCfg} {rc : Cfg} {s3 : Option (Bytes → Option Bytes)}
+    {recs : List Rec} {outs : List (RecOut × Nat)} {b : Bytes} {i : Nat}
+    (h : callWith H c rc s3 recs = .ok outs) (hm : (RecOut.blob b, i) ∈ outs) :
+    ∃ r, recs[i]? = some r ∧ resolveRecordWith H c rc s3 r = .blob b := by
+  unfold callWith at h
+  split at h
+  · simp only [passAll, CallOut.ok.injEq] at h
+    subst h
+    rw [List.mem_zipIdx_iff_getElem?] at hm
+    simp only [List.getElem?_map] at hm
+    cases hr : recs[i]? <;> simp [hr] at hm
+  · split at h
+    · simp at h
+    · simp only [] at h
+      split at h
+      · simp at h
+      · simp only [CallOut.ok.injEq] at h
+        subst h
+        rw [List.mem_filter, List.mem_zipIdx_iff_getElem?] at hm
+        have hm := hm.1
+        simp only [List.getElem?_map] at hm
+        cases hr : recs[i]? with
+        | none => simp [hr] at hm
+        | some r => exact ⟨r, rfl, by simpa [hr] using hm⟩
+
+/-- **C30 (iceberg: every returned blob satisfies ITS mapping's settings).**  After any history,
+whenever the stage hands on a record of mapping `m` whose value was replaced by a blob `b`: the
+record was an envelope, `b` is what the shared reader stores under the envelope's key, `b` is
+within `m`'s `max_inline_size` (when > 0), and — unless `m` turned `validate_checksum` off — its
+digest under the declared algorithm equals the declared value. -/
+theorem _root_.KafVerif.C30.iceberg_sound (H : Alg → Bytes → Bytes) (p : Proc) (st : PState)
+    (hist : List (Nat × List Rec)) (m : Nat) (recs : List Rec) (outs : List (RecOut × Nat)) (b : Bytes) (i : Nat)
+    (h : (stepWith perMapping H p (runWith perMapping H p st hist).1 m recs).2 = .ok outs)
+    (hm : (RecOut.blob b, i) ∈ outs) :
+    ∃ c r e fetch, p.mappings[m]? = some c ∧ recs[i]? = some r ∧ r.value = .env e ∧ decodeValid e = true ∧
+      p.s3 = some fetch ∧ fetch e.key = some b ∧
+      (c.mode = .resolve ∨ c.mode = .hybrid) ∧
+      (c.maxInline > 0 → (b.length : Int) ≤ c.maxInline) ∧
+      (checksumEnabled c = true → ∀ alg exp, envelopeChecksum e = some (alg, exp, true) →
+        alg ≠ .none ∧ H alg b = exp) := by
+  rw [stepWith_perMapping] at h
+  simp only [ownCall] at h
+  cases hc : p.mappings[m]? with
+  | none =>
+    rw [hc] at h
+    simp only [passAll, CallOut.ok.injEq] at h
+    subst h
+    rw [List.mem_zipIdx_iff_getElem?] at hm
+    simp only [List.getElem?_map] at hm
+    cases hr : recs[i]? <;> simp [hr] at hm
+  | some c =>
+    rw [hc] at h
+    obtain ⟨r, hri, hrb⟩ := callWith_blob h hm
+    obtain ⟨hmode, a, x, hres⟩ := resolveRecordWith_blob hrb
+    obtain ⟨e, fetch, hv, hd, hs3, hf, hsz, hck⟩ := KafVerif.C30.resolve_sound H _ _ _ _ _ _ hres
+    exact ⟨c, r, e, fetch, rfl, hri, hv, hd, hs3, hf, hmode, hsz, hck⟩
+
+/-- **C30 (iceberg: an intact blob within the mapping's limits IS resolved).**  Completeness side,
+so that the theorems above are not met by refusing everything: in `resolve` mode a decodable
+envelope whose stored blob is within `max_inline_size` and matches the declared checksum (or whose
+envelope declares none) is replaced by that blob. -/
+theorem _root_.KafVerif.C30.iceberg_complete (H : Alg → Bytes → Bytes) (c : LfsCfg) (fetch : Bytes → Option Bytes)
+    (e : Env) (size : Int) (b : Bytes) (alg : Alg) (exp : Bytes) (ok : Bool)
+    (hmode : c.mode = .resolve) (hv : decodeValid e = true) (hf : fetch e.key = some b)
+    (hs : c.maxInline > 0 → (b.length : Int) ≤ c.maxInline)
+    (hec : envelopeChecksum e = some (alg, exp, ok))
+    (hck : ok = true → computeChecksum H alg b = exp) :
+    resolveRecordWith H c (resolverCfg c) (some fetch) ⟨.env e, size⟩ = .blob b := by
+  have hres : resolve H (resolverCfg c) (some fetch) (.env e) = .ok b alg exp := by
+    simp only [resolve, hv, hf, hec, resolverCfg]
+    have hsz : ¬ (c.maxInline > 0 ∧ (b.length : Int) > c.maxInline) := by
+      intro ⟨h1, h2⟩; have := hs h1; omega
+    cases ok with
+    | false => simp [hsz]
+    | true => simp [hsz, hck rfl]
+  simp [resolveRecordWith, hmode, hv, hres]
+
+/-! ### counter-model: a resolver built once per Processor violates the property -/
+
+/-- toy "hash" = identity, and an envelope declaring (default algorithm) the digest `[9, 9]`; kept free
+of string literals so that kernel `decide` stays cheap -/
+def H1 : Alg → Bytes → Bytes := fun _ d => d
+def env1 : Env := { version := 1, bucket := [1], key := [7], sha256 := [9, 9], checksum := [], checksumAlg := [] }
+
+/-- Mapping 0 is lax (validation off, no limit), mapping 1 strict (validation on, limit 1).  With the
+once-cached resolver, after ONE segment of the lax mapping the strict mapping is handed a 2-byte
+blob that fails its envelope checksum (and exceeds its limit); its own configuration refuses it,
+and so does the once-cached resolver when the strict mapping happens to come first. -/
+theorem _root_.KafVerif.C30.resolveCached_violates :
+    ∃ (p : Proc) (hist : List (Nat × List Rec)) (m : Nat) (recs : List Rec),
+      (stepWith onceCached H1 p (runWith onceCached H1 p ⟨none⟩ hist).1 m recs).2 = .ok [(.blob [9, 8], 0)] ∧
+      ownCall H1 p m recs = .err ∧
+      (stepWith onceCached H1 p (runWith onceCached H1 p ⟨none⟩ []).1 m recs).2 = .err :=
+  ⟨⟨some fun _ => some [9, 8], [⟨.resolve, 0, some false⟩, ⟨.resolve, 1, some true⟩]⟩,
+   [(0, [⟨.env env1, 2⟩])], 1, [⟨.env env1, 2⟩], by decide⟩
+
+/-! ### non-vacuity -/
+
+def proc1 (stored : Bytes) : Proc :=
+  ⟨some fun _ => some stored, [⟨.resolve, 0, some false⟩, ⟨.resolve, 2, none⟩, ⟨.hybrid, 1, some true⟩, ⟨.skip, 0, none⟩]⟩
+
+-- lax first, then strict: the strict mapping still refuses the tampered blob, the lax one returns it
+example : (runWith perMapping H1 (proc1 [9, 8]) ⟨none⟩ [(0, [⟨.env env1, 2⟩]), (1, [⟨.env env1, 2⟩])]).2
+    = [.ok [(.blob [9, 8], 0)], .err] := by decide
+-- intact blob: resolved by the strict mapping; hybrid with limit 1 keeps the 2-byte envelope as a reference;
+-- skip drops it (the plain value stays); a topic without mapping is not touched
+example : (runWith perMapping H1 (proc1 [9, 9]) ⟨none⟩
+      [(1, [⟨.env env1, 2⟩]), (2, [⟨.env env1, 2⟩]), (3, [⟨.raw [1], 0⟩, ⟨.env env1, 2⟩]), (7, [⟨.env env1, 2⟩])]).2
+    = [.ok [(.blob [9, 9], 0)], .ok [(.kept, 0)], .ok [(.kept, 0)], .ok [(.kept, 0)]] := by decide
+
+end KafVerif.LfsIceberg
